@@ -806,13 +806,31 @@ def contains(run, m, F, E, L):
                 und.append('not of the form find(...) >= 0')
                 continue
             csig = parse_sig(me[0][2])
-            if csig is None or csig[0] != 'find' or csig[1] or csig[2] != form:
-                probs.append('contains(%s) asks %s' % (form, me[0][2].split(' const')[0]))
+            if csig is None or csig[0] not in ('find', 'find_last'):
+                und.append('contains(%s) asks %s: not a search of this string that the rule knows' % (form, me[0][2].split(' const')[0]))
                 continue
-            ca = me[0][3]
-            exp = [PtrV(this)] + nargs + [cs]
-            same = len(ca) == len(exp)
-            for a, b in zip(ca, exp):
+            ca = list(me[0][3])
+            # any find / find_last overload answers "is there an occurrence" when it is asked about the whole string and the same
+            # needle and case mode: the arguments of contains must all arrive, a position must be the neutral one
+            exp = nargs + [cs]
+            rest = ca[1:]
+            if not (isinstance(ca[0], PtrV) and ca[0].obj == this):
+                probs.append('the search is not on *this')
+                continue
+            if csig[1]:
+                pos, rest = rest[0], rest[1:]
+                if csig[0] == 'find':
+                    if not (isinstance(pos, IntV) and s2.is_eq0(pos.lin) is True):
+                        if isinstance(pos, IntV) and not pos.lin.t:
+                            probs.append('contains searches from position %d, not from the start' % pos.lin.c)
+                        else:
+                            und.append('start position handed to find not decided to be 0')
+                        continue
+                else:
+                    und.append('contains through find_last with a limit: not analysed')
+                    continue
+            same = len(rest) == len(exp)
+            for a, b in zip(rest, exp):
                 if isinstance(a, PtrV) and isinstance(b, PtrV):
                     same = same and a.obj == b.obj and s2.is_eq0(a.off - b.off) is True
                 elif isinstance(a, IntV) and isinstance(b, IntV):
@@ -820,7 +838,8 @@ def contains(run, m, F, E, L):
                 else:
                     same = False
             if not same:
-                probs.append('the arguments are not passed through to find unchanged')
+                und.append('the needle / case mode are not recognisably passed through to the search unchanged')
+                continue
             v = o.val
             for truth in (True, False):
                 s3 = s2.clone()
